@@ -342,3 +342,125 @@ def inline_statement_calls(p: Program, f: Function, depth: int = 2) -> ast.AST:
     node = copy.deepcopy(f.node)
     node.body = expand(node.body, f.module, depth)
     return ast.fix_missing_locations(node)
+
+
+def inline_value_calls(p: Program, f: Function, depth: int = 2, keep=()) -> Function:
+    """Copy of f in which `targets = helper(args)`, `targets = self.helper(args)` and `return helper(args)` are replaced by the
+    helper's body when the helper (same package, positional parameters only) has exactly one `return`, as its last statement
+    (possibly inside a trailing `with` block): parameters are substituted by the argument expressions, helper locals are
+    suffixed, and the returned expression is assigned to the targets (or returned).  Syntax-tree rules about one function's
+    bookkeeping then see through helper extraction; positions of inlined statements are those of the call."""
+    import copy
+
+    counter = [0]
+
+    def helper_of(call: ast.Call, module):
+        if call.keywords or any(isinstance(a, ast.Starred) for a in call.args):
+            return None, None
+        if isinstance(call.func, ast.Name):
+            callee = p.resolve_name(module, call.func.id)
+            skip = 0
+        elif isinstance(call.func, ast.Attribute) and isinstance(call.func.value, ast.Name) and call.func.value.id == "self" and f.cls:
+            callee = f.cls.find_method(call.func.attr)
+            skip = 1
+        else:
+            return None, None
+        if not isinstance(callee, Function) or not isinstance(callee.node, ast.FunctionDef) or callee.is_property or callee is f \
+                or callee.name in keep:
+            return None, None
+        a = callee.node.args
+        if a.vararg or a.kwarg or a.kwonlyargs or len(callee.params) - skip != len(call.args):
+            return None, None
+        body = [s for s in callee.node.body if not (isinstance(s, ast.Expr) and isinstance(s.value, ast.Constant)
+                                                     and isinstance(s.value.value, str))]
+        # a trailing `with ...:` only scopes a context (error state, lock): its statements are the tail of the body
+        while body and isinstance(body[-1], ast.With):
+            body = body[:-1] + list(body[-1].body)
+        rets = [n for n in own_walk(callee.node) if isinstance(n, ast.Return)]
+        if len(rets) != 1 or not body or body[-1] is not rets[0] or rets[0].value is None:
+            return None, None
+        return callee, (body, skip)
+
+    def subst(body, mapping, suffix, direct=None):
+        direct = direct or {}
+        locals_ = set()
+        for st in body:
+            for n in ast.walk(st):
+                if isinstance(n, ast.Name) and isinstance(n.ctx, ast.Store):
+                    locals_.add(n.id)
+
+        class R(ast.NodeTransformer):
+            def visit_Name(self, n):
+                if n.id in direct:
+                    return ast.copy_location(ast.Name(id=direct[n.id], ctx=n.ctx), n)
+                if n.id in mapping and n.id not in locals_:
+                    return copy.deepcopy(mapping[n.id])
+                if n.id in locals_ or n.id in mapping:
+                    return ast.copy_location(ast.Name(id=n.id + suffix, ctx=n.ctx), n)
+                return n
+        return [R().visit(copy.deepcopy(st)) for st in body]
+
+    def expand(stmts, module, d):
+        out = []
+        for st in stmts:
+            call = None
+            if d > 0 and isinstance(st, ast.Assign) and isinstance(st.value, ast.Call):
+                call = st.value
+            elif d > 0 and isinstance(st, ast.Return) and isinstance(st.value, ast.Call):
+                call = st.value
+            if call is not None:
+                callee, info = helper_of(call, module)
+                if callee is not None:
+                    body, skip = info
+                    counter[0] += 1
+                    suffix = f"__inl{counter[0]}"
+                    mapping = dict(zip(callee.params[skip:], call.args))
+                    # parameters reassigned in the helper become locals initialised from the argument
+                    pre = []
+                    stored = {n.id for s in body for n in ast.walk(s) if isinstance(n, ast.Name) and isinstance(n.ctx, ast.Store)}
+                    for k in list(mapping):
+                        if k in stored:
+                            pre.append(ast.Assign(targets=[ast.Name(id=k + suffix, ctx=ast.Store())], value=copy.deepcopy(mapping[k])))
+                    # the helper's result locals become the caller's targets directly (`a, b = helper()` with `return x, y`)
+                    direct = {}
+                    rv = body[-1].value
+                    if isinstance(st, ast.Assign) and len(st.targets) == 1:
+                        tg = st.targets[0]
+                        rn = [rv] if isinstance(rv, ast.Name) else (list(rv.elts) if isinstance(rv, ast.Tuple) else [])
+                        tn = [tg] if isinstance(tg, ast.Name) else (list(tg.elts) if isinstance(tg, ast.Tuple) else [])
+                        if rn and len(rn) == len(tn) and all(isinstance(x, ast.Name) for x in rn + tn) \
+                                and len({x.id for x in rn}) == len(rn) and not ({x.id for x in rn} & set(mapping)):
+                            others = (stored | set(mapping)) - {x.id for x in rn}
+                            if not ({x.id for x in tn} & others):
+                                direct = {r_.id: t_.id for r_, t_ in zip(rn, tn)}
+                    mapped = subst(body, mapping, suffix, direct)
+                    tail = mapped[-1]
+                    if direct:
+                        new = pre + mapped[:-1]
+                    else:
+                        if isinstance(st, ast.Assign):
+                            last = ast.Assign(targets=copy.deepcopy(st.targets), value=tail.value)
+                        else:
+                            last = ast.Return(value=tail.value)
+                        new = pre + mapped[:-1] + [last]
+                    for m in new:
+                        for sub in ast.walk(m):
+                            ast.copy_location(sub, st)
+                    out += expand(new, callee.module, d - 1)
+                    continue
+            for fld in ("body", "orelse", "finalbody"):
+                sub = getattr(st, fld, None)
+                if isinstance(sub, list) and sub and isinstance(sub[0], ast.stmt):
+                    setattr(st, fld, expand(sub, module, d))
+            if isinstance(st, ast.Try):
+                for h in st.handlers:
+                    h.body = expand(h.body, module, d)
+            out.append(st)
+        return out
+
+    node = copy.deepcopy(f.node)
+    node.body = expand(node.body, f.module, depth)
+    ast.fix_missing_locations(node)
+    g = copy.copy(f)
+    g.node = node
+    return g
